@@ -236,6 +236,7 @@ func catalogue() []*deviant {
 		}
 		return nil, true
 	}})
+	add(&deviant{name: "remove-always-nil", remove: func(fs *mem.FS, n string) (error, bool) { return nil, true }})
 	add(&deviant{name: "rename-noop", rename: func(fs *mem.FS, o, n string) (error, bool) {
 		if _, err := fs.Stat(o); err != nil {
 			return nil, false
